@@ -515,6 +515,11 @@ def _run_check(pid, tier, seed, udir, meta, work, ev_path, t0, only):
     bounded_results = [r for r in results if r['bounded']]
     n_ob = sum(len(r['obligations']) for r in proof_results)
     n_dis = sum(sum(1 for o in r['obligations'] if o['status'] == 'SUCCESS') for r in proof_results)
+    cbmc_txt = 'goto-cc --function <h>; goto-instrument --dfcc <h> --enforce-contract <f> [--replace-call-with-contract <g>] --apply-loop-contracts; cbmc --object-bits 12 [backend] (CBMC 6.11.0); per job commands in per_function[].'
+    real_txt = 'tools/realvc.py: gcc -E on the extracted text, symbolic execution over the reals, one SMT-LIB2 QF_NRA query per ensures clause / division / cover, raced on z3 4.8.12, z3 5.1 and cvc5 1.0 (unsat = discharged); native differential check of the generator.'
+    has_real = any(str(r.get('backend', '')).startswith('realsmt') for r in results)
+    has_cbmc = any(not str(r.get('backend', '')).startswith('realsmt') for r in results)
+    checker_cmd_text = ' | '.join(t for t, on in ((cbmc_txt, has_cbmc), (real_txt, has_real)) if on)
     per_fn = []
     for r in results:
         per_fn.append(dict(job=r['job'], function=r['enforce'], callees_replaced_by_contract=r['replace'],
@@ -552,7 +557,7 @@ def _run_check(pid, tier, seed, udir, meta, work, ev_path, t0, only):
         property_id=pid, tier=tier, seed=int(seed), level='proof',
         coverage=dict(
             obligations=n_ob, discharged=n_dis,
-            checker_cmd='goto-cc --function <h>; goto-instrument --dfcc <h> --enforce-contract <f> [--replace-call-with-contract <g>] --apply-loop-contracts; cbmc --object-bits 12 [backend] (CBMC 6.11.0); per job commands in per_function[].',
+            checker_cmd=checker_cmd_text,
             trusted_base=meta.get('trusted_base', []),
             functions_under_contract=fn_list,
             per_function=per_fn,
